@@ -10,7 +10,7 @@
 (*   kind "read"   - see TOrder;                                            *)
 (*   kind "forces" - additionally synthetic calculator outputs listing the  *)
 (*                   atoms in FILE order were given to create_FORCE_SETS    *)
-(*                   (E.mode: dataset type, --fz, WIEN2k symmetric scf);    *)
+(*                   (E.emode: dataset type, --fz, WIEN2k symmetric scf);    *)
 (*                   E.fs is the projected FORCE_SETS (force tokens per     *)
 (*                   dataset atom, displacements kept) or the refusal;      *)
 (*   kind "convert"- convert_crystal_structure from E.ecalc to E.ocalc;     *)
@@ -21,7 +21,7 @@
 (* C17) and the logged values are compared with the machine (Conforms..).   *)
 EXTENDS Calculators
 
-CONSTANT Events   \* records [n, kind, route, ecalc, ocalc, ecell, ncl, mode, orbit, eres, fs]
+CONSTANT Events   \* records [n, kind, route, ecalc, ocalc, ecell, ncl, emode, eorbit, eres, fs]
                   \* (field names differ from the variables' names on purpose: SANY's
                   \* linter warns once per record literal otherwise)
 
@@ -38,8 +38,8 @@ TChoose ==
   /\ calc' = E.ecalc /\ cell' = E.ecell
   /\ phase' = CASE E.kind = "forces" -> "displaced" [] E.kind = "convert" -> "convert-in" [] OTHER -> "perfect"
   /\ calc2' = IF E.kind = "convert" THEN E.ocalc ELSE ""
-  /\ mode' = E.mode
-  /\ orbit' = E.orbit
+  /\ mode' = E.emode
+  /\ orbit' = E.eorbit
   /\ cell0' = IF E.kind = "convert" THEN E.ecell ELSE PerfectOf(E.ecell)
   /\ order0' = IF Trait[E.ecalc].groups THEN GroupPerm(SpeciesOf(E.ecell)) ELSE Identity(Len(E.ecell))
   /\ pc' = "order"
@@ -83,7 +83,7 @@ ImplNotRefused == (AtEndFS /\ Ok) => ReqNotRefusedWhenSameOrder(E.ecell, E.eres.
 (* the displacements written to FORCE_SETS are the dataset's *)
 ImplDisplacementsKept == (AtEndFS /\ E.fs.status = "built") => E.fs.dispOK
 (* WIEN2k symmetric scf: forces of all atoms are recovered *)
-ImplSymPaired == (AtEndFS /\ E.mode.sym) => (E.fs.status = "built" /\ ReqForcesPaired(E.ecell, E.fs))
+ImplSymPaired == (AtEndFS /\ E.emode.sym) => (E.fs.status = "built" /\ ReqForcesPaired(E.ecell, E.fs))
 (* conversion between interfaces *)
 ImplConvertible == AtEndCV => (Ok <=> ~Trait[E.ocalc].needsinfo)
 ImplConvertCrystal ==
